@@ -33,9 +33,12 @@ func (core *JApiCore) processContext(d *directive.Directive, root *[]*directive.
 						d.String(),
 					))
 				}
-				*root = append(*root, d)
-				core.currentContextDirective = d
-				return nil
+				// The method starts a resource of its own: the implicit context of
+				// the URL ends here and the method is placed where the URL stands,
+				// in the root or in the MACRO which holds the URL (whose explicit
+				// context must not be left silently).
+				core.currentContextDirective = core.currentContextDirective.Parent
+				continue
 			}
 
 			d.Parent = core.currentContextDirective
